@@ -1062,8 +1062,15 @@ class Engine:
         st0.frames.append(fr); s.funcs_run.add(entry)
         s.pending.append((st0, True))
         tb = s.cfg['time_budget']; mp = s.cfg['max_paths']
+        npick = 0
         while s.pending:
-            st, _ = s.pending.pop()
+            # depth first; once 40 % of the time budget is spent every other pick takes the OLDEST pending state instead, so that
+            # a job that will not finish still visits the sides of its early forks (exploration order only - no effect on verdicts)
+            npick += 1
+            if tb and (npick & 1) and len(s.pending) > 1 and time.time() - s.t0 > 0.4 * tb:
+                st, _ = s.pending.pop(0)
+            else:
+                st, _ = s.pending.pop()
             if (tb and time.time() - s.t0 > tb) or (mp and s.stats['paths'] >= mp):
                 s.bound_hits['exploration budget (paths not explored)'] = s.bound_hits.get('exploration budget (paths not explored)', 0) + 1 + len(s.pending)
                 s.pending = []
